@@ -174,10 +174,11 @@ def soundEndorse (c : Cand) (sender : Nat) (m : Endorse) : Bool :=
   m.endorser == sender && knownHash c m.proposer m.forEmpty m.hash && m.proposer != maxU32
 
 /-- `.sound`, commit message: committer = sender, known hash; every `EndorsersSig` entry that does not verify under the
-key of the claimed endorser for that hash is dropped. -/
+key of the claimed endorser for that hash is dropped, a `ProposerSig` copy that does not verify is blanked. -/
 def soundCommit (N : Nat) (c : Cand) (sender : Nat) (m : Commit) : Option Commit :=
   if m.committer == sender && knownHash c m.proposer m.forEmpty m.hash && m.proposer != maxU32 then
-    some { m with endorsers := m.endorsers.filter (fun e => decide (e.1 < N) && e.2 == .valid e.1 m.hash) }
+    some { m with endorsers := m.endorsers.filter (fun e => decide (e.1 < N) && e.2 == .valid e.1 m.hash),
+                  psig := if m.psig == .valid m.proposer m.hash then m.psig else .junk 0 }
   else none
 
 /-- one message as delivered by the network to this node -/
@@ -330,6 +331,15 @@ def genuineFor (N : Nat) (c : Cand) (p i : Nat) : Bool :=
         || m.endorsers.any (fun e => e.1 == i && genuineSig i p m.forEmpty e.2)
         || (i == p && genuineSig p p m.forEmpty m.psig)))
   || (i == p && c.proposals.any (fun pr => pr.proposer == p && genuineSig p p false pr.sig)) )
+
+/-- version of the proposal of `p` stored in the pool -/
+def storedVer (c : Cand) (p : Nat) : Option Nat := (c.proposals.find? (·.proposer == p)).map (·.ver)
+
+/-- the signature `s` occurs somewhere in the candidate state (where `genuineFor` looks) -/
+def sigOccurs (c : Cand) (s : Sig) : Bool :=
+  c.endorseSigs.any (fun x => x.2.any (fun e => e.sig == s))
+  || c.commitMsgs.any (fun m => m.sig == s || m.psig == s || m.endorsers.any (fun e => e.2 == s))
+  || c.proposals.any (fun pr => pr.sig == s)
 
 /-- number of distinct consensus peers with a genuine signature for `p` in the pool -/
 def genuineCount (N : Nat) (c : Cand) (p : Nat) : Nat := ((List.range N).filter (genuineFor N c p)).length
